@@ -88,8 +88,8 @@ Theorem C08_raises_only_on_conflict : forall ft ops c b e,
 Proof. exact reachable_unified_raises. Qed.
 Print Assumptions C08_raises_only_on_conflict.
 
-(* not proved: the if half (every conflict raises) — false as stated for memberships (finding C08-F1);
-   computed below on an example and decided per run by the merge oracle *)
+(* not proved: the if half (every conflict raises); it was false for memberships (finding C08-F1, repaired in /repo
+   together with C05-F1: see C08_membership_conflict_raises below) and is decided per run by the merge oracle *)
 
 (* merging computes: two entities and an agent on one identifier, an anonymous
    relation; the agent survives (repaired grouping), attribute sets are united *)
@@ -117,4 +117,25 @@ Example C08_conflict_raises :
        [mkRec "Generation" (Some (exq "g")) [(prov_qn "entity", [VQn (exq "e1")])];
         mkRec "Generation" (Some (exq "g")) [(prov_qn "entity", [VQn (exq "e2")])]] [])
   = Raise EProv.
+Proof. vm_compute. reflexivity. Qed.
+
+(* finding C08-F1 as repaired: two memberships under one identifier that disagree on the collection are a conflict like
+   any other; disagreeing on the member is not — the members are united *)
+Example C08_membership_conflict_raises :
+  unified_records []
+    (mkB None nsm_init
+       [mkRec "Membership" (Some (exq "m")) [(prov_qn "collection", [VQn (exq "c1")]); (prov_qn "entity", [VQn (exq "e")])];
+        mkRec "Membership" (Some (exq "m")) [(prov_qn "collection", [VQn (exq "c2")]); (prov_qn "entity", [VQn (exq "e")])]] [])
+  = Raise EProv.
+Proof. vm_compute. reflexivity. Qed.
+
+Example C08_membership_members_united :
+  match unified_records []
+    (mkB None nsm_init
+       [mkRec "Membership" (Some (exq "m")) [(prov_qn "collection", [VQn (exq "c1")]); (prov_qn "entity", [VQn (exq "e1")])];
+        mkRec "Membership" (Some (exq "m")) [(prov_qn "collection", [VQn (exq "c1")]); (prov_qn "entity", [VQn (exq "e2")])]] [])
+  with
+  | OK [r] => map (fun kv => (qn_local (fst kv), length (snd kv))) (rattrs r)
+  | _ => []
+  end = [("collection", 1); ("entity", 2)].
 Proof. vm_compute. reflexivity. Qed.
